@@ -296,4 +296,52 @@ theorem shardinfo_valid (shard n msb : Nat) (si : ShardInfo) (h : parseShardInfo
   cases h
   exact ⟨by simp only []; omega, by simp only []; omega, rfl⟩
 
+/-- The whole `try_from`: when all three first values are decimal numbers it is `parseShardInfo`. -/
+theorem shardopts_numbers (s n m : Nat) :
+    parseShardOptions (.val (some s)) (.val (some n)) (.val (some m)) =
+      (match parseShardInfo s n m with
+       | .ok si => .ok si
+       | .error e => .error (.info e)) := by
+  unfold parseShardOptions parseShardInfo
+  by_cases h1 : s > 65535
+  · simp [h1]
+  · by_cases h2 : n > 65535
+    · simp [h1, h2]
+    · by_cases h3 : n = 0
+      · simp [h1, h3]
+      · by_cases h4 : m > 255
+        · simp [h1, h2, h3, h4]
+        · by_cases h5 : s ≥ n
+          · simp [h1, h2, h3, h4, h5]
+          · simp [h1, h2, h3, h4, h5]
+
+/-- Sharding information is accepted only when all three entries are present with a numeric first value, and then
+it is exactly those numbers, with `shard < nr_shards ≤ 65535`, `nr_shards ≠ 0`, `msb_ignore ≤ 255`. -/
+theorem shardopts_ok (a b c : Entry) (si : ShardInfo) (h : parseShardOptions a b c = .ok si) :
+    a = .val (some si.shard) ∧ b = .val (some si.nrShards) ∧ c = .val (some si.msbIgnore) ∧
+    si.shard < si.nrShards ∧ si.nrShards ≠ 0 ∧ si.nrShards ≤ 65535 ∧ si.msbIgnore ≤ 255 := by
+  unfold parseShardOptions at h
+  repeat' split at h
+  all_goals first | (cases h; done) | skip
+  cases h
+  refine ⟨rfl, rfl, rfl, ?_, ?_, ?_, ?_⟩ <;> simp only [] <;> omega
+
+/-- A node that sends none of the three entries (Cassandra) is told apart from a broken ScyllaDB answer. -/
+theorem shardopts_no_info_iff (a b c : Entry) :
+    parseShardOptions a b c = .error .noShardInfo ↔ a = .absent ∧ b = .absent ∧ c = .absent := by
+  constructor
+  · intro h
+    unfold parseShardOptions at h
+    repeat' split at h
+    all_goals first | (cases h; done) | skip
+    all_goals first | exact ⟨rfl, rfl, rfl⟩ | (simp_all; done)
+  · rintro ⟨rfl, rfl, rfl⟩; rfl
+
+example : parseShardOptions (.val (some 3)) (.val (some 8)) (.val (some 12)) = .ok ⟨3, 8, 12⟩ ∧
+    parseShardOptions .absent (.val (some 8)) (.val (some 12)) = .error .missingSome ∧
+    parseShardOptions (.val (some 3)) .empty (.val (some 12)) = .error .missingValues ∧
+    parseShardOptions (.val (some 3)) (.val none) .empty = .error .missingValues ∧
+    parseShardOptions (.val (some 9)) (.val (some 8)) (.val none) = .error (.info .parse) :=
+  ⟨rfl, rfl, rfl, rfl, rfl⟩
+
 end ScyllaVerif.Props.C11
